@@ -126,4 +126,14 @@ def trace (exp : FS → Path → List Nat → Crash → FS × Bool) :
     let s := genFile exp fs (.out r.path) r.overwrite r.chunks r.crash
     (s.2, s.1 (.out r.path), (s.1 (.tmp r.path)).isSome) :: trace exp s.1 rs
 
+/-- like `trace`, additionally returning the state of every output file of `ps` (content, temporary
+sibling present) after every run — histories over several output files (for the driver) -/
+def traceOn (exp : FS → Path → List Nat → Crash → FS × Bool) (ps : List Nat) :
+    FS → List Run → List (Outcome × Option Content × Bool × List (Option Content × Bool))
+  | _, [] => []
+  | fs, r :: rs =>
+    let s := genFile exp fs (.out r.path) r.overwrite r.chunks r.crash
+    (s.2, s.1 (.out r.path), (s.1 (.tmp r.path)).isSome,
+      ps.map fun n => (s.1 (.out n), (s.1 (.tmp n)).isSome)) :: traceOn exp ps s.1 rs
+
 end GenFile
